@@ -227,10 +227,11 @@ Definition add_cardinality (v : pyval) : option (list (str * rnode)) :=
   opt_app (add_occurs c_shacl_R_SHACL_MIN_COUNT_PROP (min_occurs_from_cardinality v))
           (add_occurs c_shacl_R_SHACL_MAX_COUNT_PROP (max_occurs_from_cardinality v)).
 
-(** _add_exactly_one_cardinality *)
+(** _add_exactly_one_cardinality (min_occurs=1, max_occurs=1); no longer called by
+    [_add_instantiation_constraint], kept so that a tree that calls it is still modelled *)
 Definition add_exactly_one_cardinality : option (list (str * rnode)) :=
-  opt_app (add_occurs c_shacl_R_SHACL_MIN_COUNT_PROP (Some (PInt shacl_exactly_one_min)))
-          (add_occurs c_shacl_R_SHACL_MAX_COUNT_PROP (Some (PInt shacl_exactly_one_max))).
+  opt_app (add_occurs c_shacl_R_SHACL_MIN_COUNT_PROP (Some (PInt 1)))
+          (add_occurs c_shacl_R_SHACL_MAX_COUNT_PROP (Some (PInt 1))).
 
 Definition add_direct_path (prop : str) : option (list (str * rnode)) :=
   match generate_r_uri prop with
@@ -259,24 +260,44 @@ Definition add_in_instance (ty : str) : option (list (str * rnode)) :=
 Definition property_shape_type : list (str * rnode) :=
   [(rdflib_RDF_type, RIri c_shacl_R_SHACL_PROPERTY_SHAPE_URI)].
 
-(** _add_constraint: the arcs of the property shape's blank node.  The
-    instantiation property is compared as handed to the serialiser (no corner
-    removal on this side). *)
+(** one helper call of [_add_instantiation_constraint] / [_add_regular_constraint];
+    outer [None] = a helper this model does not know *)
+Definition step_arcs (st : stmt) (ty : str) (step : str) : option (option (list (str * rnode))) :=
+  if str_eqb step (Str "_generate_bnode") then Some (Some [])
+  else if str_eqb step (Str "_add_bnode_property") then Some (Some property_shape_type)
+  else if str_eqb step (Str "_add_node_type") then Some (add_node_type ty)
+  else if str_eqb step (Str "_add_cardinality") then Some (add_cardinality (card_value (s_card st)))
+  else if str_eqb step (Str "_add_exactly_one_cardinality") then Some add_exactly_one_cardinality
+  else if str_eqb step (Str "_add_path") then Some (add_path (s_inv st) (s_prop st))
+  else if str_eqb step (Str "_add_direct_path") then Some (add_direct_path (s_prop st))
+  else if str_eqb step (Str "_add_inverse_path") then Some (add_inverse_path (s_prop st))
+  else if str_eqb step (Str "_add_in_instance") then Some (add_in_instance ty)
+  else None.
+
+Fixpoint run_steps (st : stmt) (ty : str) (steps : list str) : vres (list (str * rnode)) :=
+  match steps with
+  | [] => VOk []
+  | x :: rest =>
+    match step_arcs st ty x with
+    | None => VUnmodelled
+    | Some None => VValueError
+    | Some (Some a) =>
+      match run_steps st ty rest with
+      | VOk b => VOk (a ++ b)
+      | v => v
+      end
+    end
+  end.
+
+(** _add_constraint: the arcs of the property shape's blank node, in the order of
+    the helper calls as they stand in the source ([shacl_instantiation_steps],
+    [shacl_regular_steps] of Gen/Consts.v).  The instantiation property is
+    compared as handed to the serialiser (no corner removal on this side). *)
 Definition shacl_arcs (tau : str) (st : stmt) : vres (list (str * rnode)) :=
   if s_choice st then VUnmodelled
   else match s_types st with
-       | [ty] =>
-         let r :=
-           if str_eqb (s_prop st) tau then
-             (* _add_instantiation_constraint: direct path, exactly one, sh:in *)
-             opt_app (Some property_shape_type)
-               (opt_app (add_direct_path (s_prop st)) (opt_app add_exactly_one_cardinality (add_in_instance ty)))
-           else
-             (* _add_regular_constraint *)
-             opt_app (Some property_shape_type)
-               (opt_app (add_node_type ty)
-                  (opt_app (add_cardinality (card_value (s_card st))) (add_path (s_inv st) (s_prop st))))
-         in match r with Some arcs => VOk arcs | None => VValueError end
+       | [ty] => run_steps st ty (if str_eqb (s_prop st) tau then shacl_instantiation_steps
+                                  else shacl_regular_steps)
        | _ => VUnmodelled
        end.
 
@@ -343,26 +364,10 @@ Definition shape_ref (s : str) : bool := prefixb (Str "%<") s && suffixb (Str ">
 Definition card_pos (c : card) : bool :=
   match c with CExact k => negb (N.eqb k 0) | _ => true end.
 
+(** the domain of the property: statements the extraction produces with
+    [disable_or_statements] at its default, on graphs whose predicates and
+    class values SHACL serialisation accepts (http(s) IRIs) *)
 Definition C11_dom (ns : nsdict) (tau : str) (st : stmt) : bool :=
-  ns_ok ns && str_eqb (shex_tau tau) tau &&
-  negb (s_choice st) && card_pos (s_card st) && http_iri (s_prop st) &&
-  match s_types st with
-  | [ty] =>
-    if str_eqb (s_prop st) tau
-    then (* instantiation constraint: only the form both sides agree on *)
-      negb (s_inv st) && card_eqb (s_card st) (CExact 1) && http_iri ty
-    else str_eqb ty (Str "IRI") || shape_ref ty || plain_iri ty
-  | _ => false
-  end.
-
-Definition C11_dom_shape (ns : nsdict) (tau : str) (sh : shape) : bool :=
-  ns_ok ns && shape_ref (sh_name sh) && forallb (C11_dom ns tau) (sh_stmts sh).
-
-(** ** the full domain of the property (statements the extraction produces
-    with [disable_or_statements] at its default, on graphs whose predicates
-    and classes SHACL serialisation accepts) and the root causes that separate
-    it from [C11_dom] *)
-Definition stmt_wf (ns : nsdict) (tau : str) (st : stmt) : bool :=
   ns_ok ns && str_eqb (shex_tau tau) tau &&
   negb (s_choice st) && card_pos (s_card st) && http_iri (s_prop st) &&
   match s_types st with
@@ -372,17 +377,5 @@ Definition stmt_wf (ns : nsdict) (tau : str) (st : stmt) : bool :=
   | _ => false
   end.
 
-Definition is_tau (tau : str) (st : stmt) : bool := str_eqb (s_prop st) tau.
-
-(** F1: node kind BNode (the macro table maps it to nothing) *)
-Definition rc_bnode (tau : str) (st : stmt) : bool :=
-  negb (is_tau tau st) && str_eqb (s_type st) (Str "BNode").
-(** F2: node kind NONLITERAL (not in the macro table: falls through to sh:dataType) *)
-Definition rc_nonliteral (tau : str) (st : stmt) : bool :=
-  negb (is_tau tau st) && str_eqb (s_type st) (Str "NONLITERAL").
-(** F3: instantiation constraint with a cardinality other than exactly one *)
-Definition rc_tau_card (tau : str) (st : stmt) : bool :=
-  is_tau tau st && negb (card_eqb (s_card st) (CExact 1)).
-(** F4: inverse instantiation constraint (written with a direct path) *)
-Definition rc_tau_inverse (tau : str) (st : stmt) : bool :=
-  is_tau tau st && s_inv st.
+Definition C11_dom_shape (ns : nsdict) (tau : str) (sh : shape) : bool :=
+  ns_ok ns && shape_ref (sh_name sh) && forallb (C11_dom ns tau) (sh_stmts sh).
